@@ -39,6 +39,52 @@ func (c *Ctx) Explore(fn *types.Func, level, maxRuns int) *Exploration {
 	return e
 }
 
+// ExploreDeep explores with every generator-package function followed.
+func (c *Ctx) ExploreDeep(fn *types.Func, level, maxRuns int) *Exploration {
+	k := fmt.Sprintf("deep/%s/%d/%d", FuncName(fn), level, maxRuns)
+	if e, ok := c.exps[k]; ok {
+		return e
+	}
+	c.W.InlineAllRuns = true
+	e := c.W.Explore(fn, level, maxRuns)
+	c.W.InlineAllRuns = false
+	c.exps[k] = e
+	return e
+}
+
+// nonEmptyLists: lists that are non-empty whenever the emitter sees them,
+// because the collector that builds them only records messages for which the
+// corresponding has…Fields predicate holds (ctx.<X>Fields = get<X>Fields(msg)).
+var nonEmptyLists = regexp.MustCompile(`\.(NumberFields|NullableFields|EmptyBehaviorFields|TimestampFields|BytesFields|FlattenFields|Variants|MapFields|Oneofs|DiscriminatedOneofs)$`)
+
+func invariantFix(dk, cr string) (int, bool) {
+	if strings.HasPrefix(dk, "n:") && nonEmptyLists.MatchString(dk) {
+		return 1, true
+	}
+	return 0, false
+}
+
+// ExplorePlugin walks a plugin's generateFile (so that every unit is created
+// under the guards generateFile puts around it) with the collector invariants
+// fixed, and returns the variants of the unit with the given suffix.
+func (c *Ctx) ExplorePlugin(pkg string, level, maxRuns int, deep bool) *Exploration {
+	k := fmt.Sprintf("plugin/%s/%d/%d/%v", pkg, level, maxRuns, deep)
+	if e, ok := c.exps[k]; ok {
+		return e
+	}
+	gf := c.P.Func(pkg, "Generator.generateFile")
+	if gf == nil {
+		return nil
+	}
+	c.W.InlineAllRuns = deep
+	c.W.FixRuns = invariantFix
+	e := c.W.Explore(gf, level, maxRuns)
+	c.W.InlineAllRuns = false
+	c.W.FixRuns = nil
+	c.exps[k] = e
+	return e
+}
+
 func (c *Ctx) Root(pkg, suffix string) *RootInfo {
 	for _, r := range c.Roots() {
 		if r.Pkg == pkg && r.Suffix == suffix {
